@@ -57,20 +57,14 @@ pub mod w12 {
    use crate::common::*;
    ascent_par! {
       pub struct Prog;
-      relation r0(i64);
+      relation r0(i64, i64);
       relation r1(i64, i64);
-      relation r2(i64);
-      relation r3(i64, i64);
-      lattice r4(i64, Set<i64>);
-      lattice r5(i64, i64, Set<i64>);
-      r4(v0, Set::singleton((*v1))) <-- r1(v0, v1);
-      r4(v1, v2) <-- r4(v0, v2), r1(v0, v1);
-      r4(1, Set::singleton((*v0))) <-- r3(v0, v1);
-      r4(v2, v1) <-- r4(v0, v1) if ((*v0) < 3), r3(v0, v2) if ((*v2) < 5);
-      r5(v1, v0, Set::singleton((*v1))) <-- r1(v0, v1) if ((*v0) < 4);
-      r5(v0, v2, v1) <-- r5(v0, 1, v1), r1(v0, v2);
-      r5(v0, v0, v2) <-- r5(0, v0, v1) if ((*v0) < 4), r5(v0, 2, v2);
-      r3(v0, v0) <-- r2(v0);
+      relation r2(i64, i64, i64);
+      r2(v0, v0, v2) <-- if let Some(v0) = Some(2), r1(v1, v2), if (v0 <= 6);
+      r2(v1, v2, 2) <-- let v0 = 3, r2(v0, v1, v2), r1(v0, v1) if ((*v1) < 2);
+      r2(v0, v1, v2) <-- r0(v0, v1), r1(v0, v0), r0(v1, v2);
+      r2(v0, ((*v0) + 1), v0) <-- r0(v0, v1) if ((*v1) <= 1), r2(v1, v0, v1), if ((*v0) < 6);
+      r2((v1 + 1), v1, v0) <-- for v0 in 2..1, r1((v0 + 0), (v0 + 0)) if (v0 != 5) let v1 = (v0 + 1), if (v1 < 6), if (v1 <= 6);
    }
    pub struct Inst { p: Prog, pool: Option<ascent::rayon::ThreadPool> }
    pub fn make(pool: Option<usize>) -> Box<dyn Driver> {
@@ -81,12 +75,9 @@ pub mod w12 {
    impl Driver for Inst {
       fn load(&mut self, rel: usize, rows: &[Sexp], append: bool) -> Option<()> {
          match rel {
-         0 => { let v: Vec<(i64,)> = parse_rows(rows)?; if !append { self.p.r0 = Default::default(); } for x in v { self.p.r0.push(x); } },
+         0 => { let v: Vec<(i64,i64,)> = parse_rows(rows)?; if !append { self.p.r0 = Default::default(); } for x in v { self.p.r0.push(x); } },
          1 => { let v: Vec<(i64,i64,)> = parse_rows(rows)?; if !append { self.p.r1 = Default::default(); } for x in v { self.p.r1.push(x); } },
-         2 => { let v: Vec<(i64,)> = parse_rows(rows)?; if !append { self.p.r2 = Default::default(); } for x in v { self.p.r2.push(x); } },
-         3 => { let v: Vec<(i64,i64,)> = parse_rows(rows)?; if !append { self.p.r3 = Default::default(); } for x in v { self.p.r3.push(x); } },
-         4 => { let v: Vec<(i64,Set<i64>,)> = parse_rows(rows)?; if !append { self.p.r4 = Default::default(); } for x in v { self.p.r4.push(std::sync::RwLock::new(x)); } },
-         5 => { let v: Vec<(i64,i64,Set<i64>,)> = parse_rows(rows)?; if !append { self.p.r5 = Default::default(); } for x in v { self.p.r5.push(std::sync::RwLock::new(x)); } },
+         2 => { let v: Vec<(i64,i64,i64,)> = parse_rows(rows)?; if !append { self.p.r2 = Default::default(); } for x in v { self.p.r2.push(x); } },
             _ => return None,
          }
          Some(())
@@ -94,7 +85,7 @@ pub mod w12 {
       fn run(&mut self) { match &self.pool { Some(pl) => { let p = &mut self.p; pl.install(|| p.run()) }, None => self.p.run() } }
       fn run_here(&mut self) { self.p.run() }
       fn run_timeout(&mut self, k: usize) -> Option<bool> { let _ = k; None }
-      fn dump(&self) -> String { vec![dump_rel(0, self.p.r0.iter().map(|x| x.render()).collect()), dump_rel(1, self.p.r1.iter().map(|x| x.render()).collect()), dump_rel(2, self.p.r2.iter().map(|x| x.render()).collect()), dump_rel(3, self.p.r3.iter().map(|x| x.render()).collect()), dump_rel(4, self.p.r4.iter().map(|x| x.read().unwrap().render()).collect()), dump_rel(5, self.p.r5.iter().map(|x| x.read().unwrap().render()).collect())].join(" | ") }
+      fn dump(&self) -> String { vec![dump_rel(0, self.p.r0.iter().map(|x| x.render()).collect()), dump_rel(1, self.p.r1.iter().map(|x| x.render()).collect()), dump_rel(2, self.p.r2.iter().map(|x| x.render()).collect())].join(" | ") }
       fn iters(&self) -> String { format!("iters {}", self.p.scc_iters.iter().map(|x| x.to_string()).collect::<Vec<_>>().join(" ")) }
    }
 }
@@ -110,19 +101,15 @@ pub mod w20 {
       relation r0(i64);
       relation r1(i64, i64);
       relation r2(i64, i64, i64);
-      relation r3(i64);
+      relation r3(i64, i64);
       relation r4(i64, i64);
-      relation r5(i64);
-      r2(v1, v0, 3) <-- r1(v0, v1);
-      r2(v2, v1, v3) <-- if let Some(v0) = Some(2), r2(v1, (v0 + 1), v2), r2(v3, v2, ((*v2) + 0));
-      r2(v0, v1, v2) <-- r1(v0, v1), r1(((*v0) + 1), v2);
-      r2(v0, v1, v2) <-- r1(v0, v1), r1(v0, v0), r1(v1, v2);
-      r1(v2, v1) <-- r1(v0, v1), r0(v2);
-      r2(v0, v0, v0) <-- r0(v0) if ((*v0) != 5), r0(0);
-      r2(v3, v2, ((*v2) + 1)) <-- r2(v0, v1, 2), r1(v2, v3), if ((*v2) < 6);
-      r3(v1) <-- r1(v0, v1), r2(v1, v32, v32), agg v21 = count() in r2(_, (*v1), _);
-      r4(v0, 1) <-- r0(v0), agg () = not() in r3((*v0));
-      r5(v1) <-- r2(v0, v1, v2), r0(v1), agg v21 = min(v20) in r2((*v2), v20, (*v0));
+      relation r5(i64, i64, i64);
+      r2(((*v0) + 1), v0, v0) <-- r1(v0, 3), if ((*v0) < 6);
+      r3(((*v0) + 1), v1) <-- r1(v0, v1) if ((*v1) < 6) let v2 = ((*v1) + 0), if ((*v0) < 6);
+      r4(v1, v1) <-- r2(0, v0, v1), r3(v1, v2);
+      r5(v0, v1, v2) <-- r1(v0, v1) if ((*v0) < 4), r4(v1, v2) if ((*v2) != (*v1));
+      r4(v4, v3) <-- if let Some(v0) = Some(4), r2(v0, v1, v2), r1(v3, v4), r0(v5) if (v0 <= 3) let v6 = ((*v4) + 1), let v7 = v0;
+      r2(v0, v0, v1) <-- r3(v0, v1);
    }
    pub struct Inst { p: Prog, pool: Option<ascent::rayon::ThreadPool> }
    pub fn make(pool: Option<usize>) -> Box<dyn Driver> {
@@ -136,9 +123,9 @@ pub mod w20 {
          0 => { let v: Vec<(i64,)> = parse_rows(rows)?; if !append { self.p.r0 = Default::default(); } for x in v { self.p.r0.push(x); } },
          1 => { let v: Vec<(i64,i64,)> = parse_rows(rows)?; if !append { self.p.r1 = Default::default(); } for x in v { self.p.r1.push(x); } },
          2 => { let v: Vec<(i64,i64,i64,)> = parse_rows(rows)?; if !append { self.p.r2 = Default::default(); } for x in v { self.p.r2.push(x); } },
-         3 => { let v: Vec<(i64,)> = parse_rows(rows)?; if !append { self.p.r3 = Default::default(); } for x in v { self.p.r3.push(x); } },
+         3 => { let v: Vec<(i64,i64,)> = parse_rows(rows)?; if !append { self.p.r3 = Default::default(); } for x in v { self.p.r3.push(x); } },
          4 => { let v: Vec<(i64,i64,)> = parse_rows(rows)?; if !append { self.p.r4 = Default::default(); } for x in v { self.p.r4.push(x); } },
-         5 => { let v: Vec<(i64,)> = parse_rows(rows)?; if !append { self.p.r5 = Default::default(); } for x in v { self.p.r5.push(x); } },
+         5 => { let v: Vec<(i64,i64,i64,)> = parse_rows(rows)?; if !append { self.p.r5 = Default::default(); } for x in v { self.p.r5.push(x); } },
             _ => return None,
          }
          Some(())
@@ -151,6 +138,465 @@ pub mod w20 {
    }
 }
 
+#[allow(unused, non_snake_case, clippy::all)]
+pub mod w28 {
+   use ascent::*;
+   use ascent::aggregators::*;
+   use ascent::lattice::{Dual, set::Set};
+   use crate::common::*;
+   ascent_par! {
+      pub struct Prog;
+      relation r0(i64, i64);
+      relation r1(i64, i64, i64);
+      relation r2(i64);
+      r1(v0, v1, v2) <-- r0(v0, v1), r0(v0, v0), r0(v1, v2);
+      r1(((*v0) + 1), ((*v1) + 1), v2) <-- r0(v0, v1), r2(v0) if ((*v1) <= 6), r1(v2, ((*v0) + 0), ((*v0) + 1)), if ((*v0) < 6), if ((*v1) < 6);
+      r0(3, 1);
+      r1(2, v1, v4) <-- if let Some(v0) = None::<i64>, r1(v1, v0, v2), r2(v3) if ((*v1) < 6) let v4 = ((*v1) + 0), if (v4 <= 6);
+      r2(v1) <-- r0(v0, v1);
+   }
+   pub struct Inst { p: Prog, pool: Option<ascent::rayon::ThreadPool> }
+   pub fn make(pool: Option<usize>) -> Box<dyn Driver> {
+      let pool = pool.map(|n| ascent::rayon::ThreadPoolBuilder::new().num_threads(n).build().unwrap());
+      let p = match &pool { Some(pl) => pl.install(|| Default::default()), None => Default::default() };
+      Box::new(Inst { p, pool })
+   }
+   impl Driver for Inst {
+      fn load(&mut self, rel: usize, rows: &[Sexp], append: bool) -> Option<()> {
+         match rel {
+         0 => { let v: Vec<(i64,i64,)> = parse_rows(rows)?; if !append { self.p.r0 = Default::default(); } for x in v { self.p.r0.push(x); } },
+         1 => { let v: Vec<(i64,i64,i64,)> = parse_rows(rows)?; if !append { self.p.r1 = Default::default(); } for x in v { self.p.r1.push(x); } },
+         2 => { let v: Vec<(i64,)> = parse_rows(rows)?; if !append { self.p.r2 = Default::default(); } for x in v { self.p.r2.push(x); } },
+            _ => return None,
+         }
+         Some(())
+      }
+      fn run(&mut self) { match &self.pool { Some(pl) => { let p = &mut self.p; pl.install(|| p.run()) }, None => self.p.run() } }
+      fn run_here(&mut self) { self.p.run() }
+      fn run_timeout(&mut self, k: usize) -> Option<bool> { let _ = k; None }
+      fn dump(&self) -> String { vec![dump_rel(0, self.p.r0.iter().map(|x| x.render()).collect()), dump_rel(1, self.p.r1.iter().map(|x| x.render()).collect()), dump_rel(2, self.p.r2.iter().map(|x| x.render()).collect())].join(" | ") }
+      fn iters(&self) -> String { format!("iters {}", self.p.scc_iters.iter().map(|x| x.to_string()).collect::<Vec<_>>().join(" ")) }
+   }
+}
+
+#[allow(unused, non_snake_case, clippy::all)]
+pub mod w36 {
+   use ascent::*;
+   use ascent::aggregators::*;
+   use ascent::lattice::{Dual, set::Set};
+   use crate::common::*;
+   ascent_par! {
+      pub struct Prog;
+      relation r0(i64, i64);
+      relation r1(i64, i64, i64);
+      relation r2(i64);
+      relation r3(i64, i64, i64);
+      r2(((*v0) + 1)) <-- r0(v0, v1) if ((*v0) != 3), if ((*v0) < 6);
+      r2(v3) <-- r2(v0), let v1 = (*v0), r2(v2) if ((*v2) < 5), for v3 in 1..2;
+      r3(v0, v1, v9) <-- let v9 = 3, r0(v0, v1), r0(v1, v9);
+      r2(v6) <-- if let Some(v0) = Some(0), r1(v1, v2, v3), r3(v4, v5, ((*v2) + 0)), r1(v0, v6, v0), if (v0 <= 3);
+      r3(v3, v3, v0) <-- if let Some(v0) = None::<i64>, r0(v0, v1), r1(v2, v3, v1), if (v0 <= 6);
+      r3(v0, 3, ((*v3) + 1)) <-- r3(v0, v1, 2), r1(v2, v3, v1) if ((*v0) < 3), if ((*v3) < 6);
+      r2(v1) <-- if let Some(v0) = None::<i64>, r1(v0, v0, v1);
+   }
+   pub struct Inst { p: Prog, pool: Option<ascent::rayon::ThreadPool> }
+   pub fn make(pool: Option<usize>) -> Box<dyn Driver> {
+      let pool = pool.map(|n| ascent::rayon::ThreadPoolBuilder::new().num_threads(n).build().unwrap());
+      let p = match &pool { Some(pl) => pl.install(|| Default::default()), None => Default::default() };
+      Box::new(Inst { p, pool })
+   }
+   impl Driver for Inst {
+      fn load(&mut self, rel: usize, rows: &[Sexp], append: bool) -> Option<()> {
+         match rel {
+         0 => { let v: Vec<(i64,i64,)> = parse_rows(rows)?; if !append { self.p.r0 = Default::default(); } for x in v { self.p.r0.push(x); } },
+         1 => { let v: Vec<(i64,i64,i64,)> = parse_rows(rows)?; if !append { self.p.r1 = Default::default(); } for x in v { self.p.r1.push(x); } },
+         2 => { let v: Vec<(i64,)> = parse_rows(rows)?; if !append { self.p.r2 = Default::default(); } for x in v { self.p.r2.push(x); } },
+         3 => { let v: Vec<(i64,i64,i64,)> = parse_rows(rows)?; if !append { self.p.r3 = Default::default(); } for x in v { self.p.r3.push(x); } },
+            _ => return None,
+         }
+         Some(())
+      }
+      fn run(&mut self) { match &self.pool { Some(pl) => { let p = &mut self.p; pl.install(|| p.run()) }, None => self.p.run() } }
+      fn run_here(&mut self) { self.p.run() }
+      fn run_timeout(&mut self, k: usize) -> Option<bool> { let _ = k; None }
+      fn dump(&self) -> String { vec![dump_rel(0, self.p.r0.iter().map(|x| x.render()).collect()), dump_rel(1, self.p.r1.iter().map(|x| x.render()).collect()), dump_rel(2, self.p.r2.iter().map(|x| x.render()).collect()), dump_rel(3, self.p.r3.iter().map(|x| x.render()).collect())].join(" | ") }
+      fn iters(&self) -> String { format!("iters {}", self.p.scc_iters.iter().map(|x| x.to_string()).collect::<Vec<_>>().join(" ")) }
+   }
+}
+
+#[allow(unused, non_snake_case, clippy::all)]
+pub mod w44 {
+   use ascent::*;
+   use ascent::aggregators::*;
+   use ascent::lattice::{Dual, set::Set};
+   use crate::common::*;
+   ascent_par! {
+      pub struct Prog;
+      relation r0(i64, i64);
+      relation r1(i64, i64);
+      lattice r2(i64, Dual<i64>);
+      lattice r3(i64, i64, Option<i64>);
+      r2(v0, Dual((*v0))) <-- r0(v0, v0) if ((*v0) < 4);
+      r2(v2, v1) <-- r2(v0, v1) if ((*v0) < 2), r0(v0, v2);
+      r3(2, 1, Some(3)) <-- r0(0, 0);
+      r3(v3, v3, v2) <-- r3(v0, v1, v2), r0(v3, v3);
+      r0(0, v1) <-- r0(v0, v1);
+   }
+   pub struct Inst { p: Prog, pool: Option<ascent::rayon::ThreadPool> }
+   pub fn make(pool: Option<usize>) -> Box<dyn Driver> {
+      let pool = pool.map(|n| ascent::rayon::ThreadPoolBuilder::new().num_threads(n).build().unwrap());
+      let p = match &pool { Some(pl) => pl.install(|| Default::default()), None => Default::default() };
+      Box::new(Inst { p, pool })
+   }
+   impl Driver for Inst {
+      fn load(&mut self, rel: usize, rows: &[Sexp], append: bool) -> Option<()> {
+         match rel {
+         0 => { let v: Vec<(i64,i64,)> = parse_rows(rows)?; if !append { self.p.r0 = Default::default(); } for x in v { self.p.r0.push(x); } },
+         1 => { let v: Vec<(i64,i64,)> = parse_rows(rows)?; if !append { self.p.r1 = Default::default(); } for x in v { self.p.r1.push(x); } },
+         2 => { let v: Vec<(i64,Dual<i64>,)> = parse_rows(rows)?; if !append { self.p.r2 = Default::default(); } for x in v { self.p.r2.push(std::sync::RwLock::new(x)); } },
+         3 => { let v: Vec<(i64,i64,Option<i64>,)> = parse_rows(rows)?; if !append { self.p.r3 = Default::default(); } for x in v { self.p.r3.push(std::sync::RwLock::new(x)); } },
+            _ => return None,
+         }
+         Some(())
+      }
+      fn run(&mut self) { match &self.pool { Some(pl) => { let p = &mut self.p; pl.install(|| p.run()) }, None => self.p.run() } }
+      fn run_here(&mut self) { self.p.run() }
+      fn run_timeout(&mut self, k: usize) -> Option<bool> { let _ = k; None }
+      fn dump(&self) -> String { vec![dump_rel(0, self.p.r0.iter().map(|x| x.render()).collect()), dump_rel(1, self.p.r1.iter().map(|x| x.render()).collect()), dump_rel(2, self.p.r2.iter().map(|x| x.read().unwrap().render()).collect()), dump_rel(3, self.p.r3.iter().map(|x| x.read().unwrap().render()).collect())].join(" | ") }
+      fn iters(&self) -> String { format!("iters {}", self.p.scc_iters.iter().map(|x| x.to_string()).collect::<Vec<_>>().join(" ")) }
+   }
+}
+
+#[allow(unused, non_snake_case, clippy::all)]
+pub mod w52 {
+   use ascent::*;
+   use ascent::aggregators::*;
+   use ascent::lattice::{Dual, set::Set};
+   use crate::common::*;
+   ascent_par! {
+      pub struct Prog;
+      relation r0(i64, i64);
+      relation r1(i64);
+      lattice r2(i64);
+      lattice r3(i64, Dual<i64>);
+      r2((*v0)) <-- r0(2, v0);
+      r2(std::cmp::min(((*v0) + 2), 6)) <-- r2(v0), r1(v1);
+      r2(std::cmp::min(((*v1) + 0), 6)) <-- r2(v0), r2(v1);
+      r3(v0, Dual((*v0))) <-- r1(v0);
+      r3(v2, Dual(((v1.0) + 3))) <-- r3(v0, v1), r1(v2);
+      r0(3, v0) <-- r0(v0, v0) if ((*v0) < 6);
+      r1(v0) <-- r0(v0, v0), r2(v1);
+   }
+   pub struct Inst { p: Prog, pool: Option<ascent::rayon::ThreadPool> }
+   pub fn make(pool: Option<usize>) -> Box<dyn Driver> {
+      let pool = pool.map(|n| ascent::rayon::ThreadPoolBuilder::new().num_threads(n).build().unwrap());
+      let p = match &pool { Some(pl) => pl.install(|| Default::default()), None => Default::default() };
+      Box::new(Inst { p, pool })
+   }
+   impl Driver for Inst {
+      fn load(&mut self, rel: usize, rows: &[Sexp], append: bool) -> Option<()> {
+         match rel {
+         0 => { let v: Vec<(i64,i64,)> = parse_rows(rows)?; if !append { self.p.r0 = Default::default(); } for x in v { self.p.r0.push(x); } },
+         1 => { let v: Vec<(i64,)> = parse_rows(rows)?; if !append { self.p.r1 = Default::default(); } for x in v { self.p.r1.push(x); } },
+         2 => { let v: Vec<(i64,)> = parse_rows(rows)?; if !append { self.p.r2 = Default::default(); } for x in v { self.p.r2.push(std::sync::RwLock::new(x)); } },
+         3 => { let v: Vec<(i64,Dual<i64>,)> = parse_rows(rows)?; if !append { self.p.r3 = Default::default(); } for x in v { self.p.r3.push(std::sync::RwLock::new(x)); } },
+            _ => return None,
+         }
+         Some(())
+      }
+      fn run(&mut self) { match &self.pool { Some(pl) => { let p = &mut self.p; pl.install(|| p.run()) }, None => self.p.run() } }
+      fn run_here(&mut self) { self.p.run() }
+      fn run_timeout(&mut self, k: usize) -> Option<bool> { let _ = k; None }
+      fn dump(&self) -> String { vec![dump_rel(0, self.p.r0.iter().map(|x| x.render()).collect()), dump_rel(1, self.p.r1.iter().map(|x| x.render()).collect()), dump_rel(2, self.p.r2.iter().map(|x| x.read().unwrap().render()).collect()), dump_rel(3, self.p.r3.iter().map(|x| x.read().unwrap().render()).collect())].join(" | ") }
+      fn iters(&self) -> String { format!("iters {}", self.p.scc_iters.iter().map(|x| x.to_string()).collect::<Vec<_>>().join(" ")) }
+   }
+}
+
+#[allow(unused, non_snake_case, clippy::all)]
+pub mod w60 {
+   use ascent::*;
+   use ascent::aggregators::*;
+   use ascent::lattice::{Dual, set::Set};
+   use crate::common::*;
+   ascent_par! {
+      pub struct Prog;
+      relation r0(i64, i64, i64);
+      relation r1(i64, i64);
+      relation r2(i64, i64);
+      lattice r3(i64, Set<i64>);
+      r3(v0, Set::singleton((*v1))) <-- r2(v0, v1);
+      r3(v1, v2) <-- r3(v0, v2), r2(v0, v1);
+      r3(v1, Set::singleton((*v1))) <-- r2(v0, v1);
+      r3(((*v2) + 1), v1) <-- r3(v0, v1), r1(v2, 3), if ((*v2) < 6);
+      r3(((*v0) + 1), Set::singleton(3)) <-- r2(v0, v0), if ((*v0) < 6);
+      r0(((*v0) + 1), v1, v0) <-- r0(v0, v1, v1), r1(v0, v1), if ((*v0) < 6);
+   }
+   pub struct Inst { p: Prog, pool: Option<ascent::rayon::ThreadPool> }
+   pub fn make(pool: Option<usize>) -> Box<dyn Driver> {
+      let pool = pool.map(|n| ascent::rayon::ThreadPoolBuilder::new().num_threads(n).build().unwrap());
+      let p = match &pool { Some(pl) => pl.install(|| Default::default()), None => Default::default() };
+      Box::new(Inst { p, pool })
+   }
+   impl Driver for Inst {
+      fn load(&mut self, rel: usize, rows: &[Sexp], append: bool) -> Option<()> {
+         match rel {
+         0 => { let v: Vec<(i64,i64,i64,)> = parse_rows(rows)?; if !append { self.p.r0 = Default::default(); } for x in v { self.p.r0.push(x); } },
+         1 => { let v: Vec<(i64,i64,)> = parse_rows(rows)?; if !append { self.p.r1 = Default::default(); } for x in v { self.p.r1.push(x); } },
+         2 => { let v: Vec<(i64,i64,)> = parse_rows(rows)?; if !append { self.p.r2 = Default::default(); } for x in v { self.p.r2.push(x); } },
+         3 => { let v: Vec<(i64,Set<i64>,)> = parse_rows(rows)?; if !append { self.p.r3 = Default::default(); } for x in v { self.p.r3.push(std::sync::RwLock::new(x)); } },
+            _ => return None,
+         }
+         Some(())
+      }
+      fn run(&mut self) { match &self.pool { Some(pl) => { let p = &mut self.p; pl.install(|| p.run()) }, None => self.p.run() } }
+      fn run_here(&mut self) { self.p.run() }
+      fn run_timeout(&mut self, k: usize) -> Option<bool> { let _ = k; None }
+      fn dump(&self) -> String { vec![dump_rel(0, self.p.r0.iter().map(|x| x.render()).collect()), dump_rel(1, self.p.r1.iter().map(|x| x.render()).collect()), dump_rel(2, self.p.r2.iter().map(|x| x.render()).collect()), dump_rel(3, self.p.r3.iter().map(|x| x.read().unwrap().render()).collect())].join(" | ") }
+      fn iters(&self) -> String { format!("iters {}", self.p.scc_iters.iter().map(|x| x.to_string()).collect::<Vec<_>>().join(" ")) }
+   }
+}
+
+#[allow(unused, non_snake_case, clippy::all)]
+pub mod w68 {
+   use ascent::*;
+   use ascent::aggregators::*;
+   use ascent::lattice::{Dual, set::Set};
+   use crate::common::*;
+   ascent_par! {
+      pub struct Prog;
+      relation r0(i64, i64);
+      relation r1(i64);
+      relation r2(i64, i64, i64);
+      lattice r3(i64, Option<i64>);
+      r3(v0, Some((*v0))) <-- r1(v0) if ((*v0) < 2);
+      r3(v0, v1) <-- r3(v0, v1), r1(v2);
+      r1(v0) <-- r1(0), r3(v0, v1);
+   }
+   pub struct Inst { p: Prog, pool: Option<ascent::rayon::ThreadPool> }
+   pub fn make(pool: Option<usize>) -> Box<dyn Driver> {
+      let pool = pool.map(|n| ascent::rayon::ThreadPoolBuilder::new().num_threads(n).build().unwrap());
+      let p = match &pool { Some(pl) => pl.install(|| Default::default()), None => Default::default() };
+      Box::new(Inst { p, pool })
+   }
+   impl Driver for Inst {
+      fn load(&mut self, rel: usize, rows: &[Sexp], append: bool) -> Option<()> {
+         match rel {
+         0 => { let v: Vec<(i64,i64,)> = parse_rows(rows)?; if !append { self.p.r0 = Default::default(); } for x in v { self.p.r0.push(x); } },
+         1 => { let v: Vec<(i64,)> = parse_rows(rows)?; if !append { self.p.r1 = Default::default(); } for x in v { self.p.r1.push(x); } },
+         2 => { let v: Vec<(i64,i64,i64,)> = parse_rows(rows)?; if !append { self.p.r2 = Default::default(); } for x in v { self.p.r2.push(x); } },
+         3 => { let v: Vec<(i64,Option<i64>,)> = parse_rows(rows)?; if !append { self.p.r3 = Default::default(); } for x in v { self.p.r3.push(std::sync::RwLock::new(x)); } },
+            _ => return None,
+         }
+         Some(())
+      }
+      fn run(&mut self) { match &self.pool { Some(pl) => { let p = &mut self.p; pl.install(|| p.run()) }, None => self.p.run() } }
+      fn run_here(&mut self) { self.p.run() }
+      fn run_timeout(&mut self, k: usize) -> Option<bool> { let _ = k; None }
+      fn dump(&self) -> String { vec![dump_rel(0, self.p.r0.iter().map(|x| x.render()).collect()), dump_rel(1, self.p.r1.iter().map(|x| x.render()).collect()), dump_rel(2, self.p.r2.iter().map(|x| x.render()).collect()), dump_rel(3, self.p.r3.iter().map(|x| x.read().unwrap().render()).collect())].join(" | ") }
+      fn iters(&self) -> String { format!("iters {}", self.p.scc_iters.iter().map(|x| x.to_string()).collect::<Vec<_>>().join(" ")) }
+   }
+}
+
+#[allow(unused, non_snake_case, clippy::all)]
+pub mod w76 {
+   use ascent::*;
+   use ascent::aggregators::*;
+   use ascent::lattice::{Dual, set::Set};
+   use crate::common::*;
+   ascent_par! {
+      pub struct Prog;
+      relation r0(i64, i64, i64);
+      relation r1(i64, i64);
+      lattice r2(Dual<i64>);
+      lattice r3(Set<i64>);
+      r2(Dual((*v1))) <-- r0(v0, v0, v1);
+      r2(Dual((*v2))) <-- r2(v0), r1(v1, v2);
+      r2(Dual(((v1.0) + 1))) <-- r2(v0), r2(v1);
+      r3(Set::singleton((*v0))) <-- r0(v0, v1, 1);
+      r3(v0) <-- r3(v0), r1(v1, v1);
+      r1(v0, v1) <-- r1(v0, 2), r0(v0, v0, v1);
+      r0(3, 1, 1) <-- r3(v0), r3(v1);
+      r2(Dual((*v0))) <-- r1(v0, 1);
+      r3(Set::singleton(4)) <-- r2(v0);
+   }
+   pub struct Inst { p: Prog, pool: Option<ascent::rayon::ThreadPool> }
+   pub fn make(pool: Option<usize>) -> Box<dyn Driver> {
+      let pool = pool.map(|n| ascent::rayon::ThreadPoolBuilder::new().num_threads(n).build().unwrap());
+      let p = match &pool { Some(pl) => pl.install(|| Default::default()), None => Default::default() };
+      Box::new(Inst { p, pool })
+   }
+   impl Driver for Inst {
+      fn load(&mut self, rel: usize, rows: &[Sexp], append: bool) -> Option<()> {
+         match rel {
+         0 => { let v: Vec<(i64,i64,i64,)> = parse_rows(rows)?; if !append { self.p.r0 = Default::default(); } for x in v { self.p.r0.push(x); } },
+         1 => { let v: Vec<(i64,i64,)> = parse_rows(rows)?; if !append { self.p.r1 = Default::default(); } for x in v { self.p.r1.push(x); } },
+         2 => { let v: Vec<(Dual<i64>,)> = parse_rows(rows)?; if !append { self.p.r2 = Default::default(); } for x in v { self.p.r2.push(std::sync::RwLock::new(x)); } },
+         3 => { let v: Vec<(Set<i64>,)> = parse_rows(rows)?; if !append { self.p.r3 = Default::default(); } for x in v { self.p.r3.push(std::sync::RwLock::new(x)); } },
+            _ => return None,
+         }
+         Some(())
+      }
+      fn run(&mut self) { match &self.pool { Some(pl) => { let p = &mut self.p; pl.install(|| p.run()) }, None => self.p.run() } }
+      fn run_here(&mut self) { self.p.run() }
+      fn run_timeout(&mut self, k: usize) -> Option<bool> { let _ = k; None }
+      fn dump(&self) -> String { vec![dump_rel(0, self.p.r0.iter().map(|x| x.render()).collect()), dump_rel(1, self.p.r1.iter().map(|x| x.render()).collect()), dump_rel(2, self.p.r2.iter().map(|x| x.read().unwrap().render()).collect()), dump_rel(3, self.p.r3.iter().map(|x| x.read().unwrap().render()).collect())].join(" | ") }
+      fn iters(&self) -> String { format!("iters {}", self.p.scc_iters.iter().map(|x| x.to_string()).collect::<Vec<_>>().join(" ")) }
+   }
+}
+
+#[allow(unused, non_snake_case, clippy::all)]
+pub mod w84 {
+   use ascent::*;
+   use ascent::aggregators::*;
+   use ascent::lattice::{Dual, set::Set};
+   use crate::common::*;
+   ascent_par! {
+      pub struct Prog;
+      relation r0(i64, i64);
+      relation r1(i64, i64);
+      relation r2(i64);
+      relation r3(i64);
+      relation r4(i64, i64);
+      relation r5(i64, i64);
+      relation r6(i64);
+      relation r7(i64, i64);
+      relation r8(i64, i64);
+      r1(v0, v1) <-- r1(v0, v1), r0(v0, v0), r1(v1, v2);
+      r4(v0, v1) <-- r5(v0, v1), r5(v0, v0), r5(v1, v2);
+      r1(0, (v0 + 1)) <-- if let Some(v0) = Some(1), r5(v1, 1), if (v0 < 6);
+      r3(v0) <-- r2(v0), r4(v1, v0) if ((*v1) != 6);
+      r3(1);
+      r6(v1) <-- r1(v0, v1), agg () = not() in r5(_, (*v0));
+      r7(v1, v21) <-- r1(v0, v1), agg v21 = max(v20) in r5((*v0), v20);
+      r8(v1, (v21 as i64)) <-- r1(v0, v1), r4(v1, v1), r3(v0), agg v21 = count() in r0(_, _);
+   }
+   pub struct Inst { p: Prog, pool: Option<ascent::rayon::ThreadPool> }
+   pub fn make(pool: Option<usize>) -> Box<dyn Driver> {
+      let pool = pool.map(|n| ascent::rayon::ThreadPoolBuilder::new().num_threads(n).build().unwrap());
+      let p = match &pool { Some(pl) => pl.install(|| Default::default()), None => Default::default() };
+      Box::new(Inst { p, pool })
+   }
+   impl Driver for Inst {
+      fn load(&mut self, rel: usize, rows: &[Sexp], append: bool) -> Option<()> {
+         match rel {
+         0 => { let v: Vec<(i64,i64,)> = parse_rows(rows)?; if !append { self.p.r0 = Default::default(); } for x in v { self.p.r0.push(x); } },
+         1 => { let v: Vec<(i64,i64,)> = parse_rows(rows)?; if !append { self.p.r1 = Default::default(); } for x in v { self.p.r1.push(x); } },
+         2 => { let v: Vec<(i64,)> = parse_rows(rows)?; if !append { self.p.r2 = Default::default(); } for x in v { self.p.r2.push(x); } },
+         3 => { let v: Vec<(i64,)> = parse_rows(rows)?; if !append { self.p.r3 = Default::default(); } for x in v { self.p.r3.push(x); } },
+         4 => { let v: Vec<(i64,i64,)> = parse_rows(rows)?; if !append { self.p.r4 = Default::default(); } for x in v { self.p.r4.push(x); } },
+         5 => { let v: Vec<(i64,i64,)> = parse_rows(rows)?; if !append { self.p.r5 = Default::default(); } for x in v { self.p.r5.push(x); } },
+         6 => { let v: Vec<(i64,)> = parse_rows(rows)?; if !append { self.p.r6 = Default::default(); } for x in v { self.p.r6.push(x); } },
+         7 => { let v: Vec<(i64,i64,)> = parse_rows(rows)?; if !append { self.p.r7 = Default::default(); } for x in v { self.p.r7.push(x); } },
+         8 => { let v: Vec<(i64,i64,)> = parse_rows(rows)?; if !append { self.p.r8 = Default::default(); } for x in v { self.p.r8.push(x); } },
+            _ => return None,
+         }
+         Some(())
+      }
+      fn run(&mut self) { match &self.pool { Some(pl) => { let p = &mut self.p; pl.install(|| p.run()) }, None => self.p.run() } }
+      fn run_here(&mut self) { self.p.run() }
+      fn run_timeout(&mut self, k: usize) -> Option<bool> { let _ = k; None }
+      fn dump(&self) -> String { vec![dump_rel(0, self.p.r0.iter().map(|x| x.render()).collect()), dump_rel(1, self.p.r1.iter().map(|x| x.render()).collect()), dump_rel(2, self.p.r2.iter().map(|x| x.render()).collect()), dump_rel(3, self.p.r3.iter().map(|x| x.render()).collect()), dump_rel(4, self.p.r4.iter().map(|x| x.render()).collect()), dump_rel(5, self.p.r5.iter().map(|x| x.render()).collect()), dump_rel(6, self.p.r6.iter().map(|x| x.render()).collect()), dump_rel(7, self.p.r7.iter().map(|x| x.render()).collect()), dump_rel(8, self.p.r8.iter().map(|x| x.render()).collect())].join(" | ") }
+      fn iters(&self) -> String { format!("iters {}", self.p.scc_iters.iter().map(|x| x.to_string()).collect::<Vec<_>>().join(" ")) }
+   }
+}
+
+#[allow(unused, non_snake_case, clippy::all)]
+pub mod w92 {
+   use ascent::*;
+   use ascent::aggregators::*;
+   use ascent::lattice::{Dual, set::Set};
+   use crate::common::*;
+   ascent_par! {
+      pub struct Prog;
+      relation r0(i64, i64);
+      relation r1(i64);
+      relation r2(i64, i64);
+      relation r3(i64, i64);
+      relation r4(i64, i64);
+      relation r5(i64, i64, i64);
+      relation r6(i64);
+      relation r7(i64, i64);
+      relation r8(i64);
+      r2(v0, 0) <-- if let Some(v0) = Some(1), r1(v0), if (v0 <= 6);
+      r2(v2, 1) <-- if let Some(v0) = Some(4), r2(v1, v2), r1(v2) if (v0 <= 1), for v3 in 2..4;
+      r2(v0, v1) <-- for v9 in 0..2, r3(v0, v1), r0(v9, v1);
+      r2(v0, v1) <-- let v9 = 0, r3(v0, v1), r2(v1, v9);
+      r2(v0, v0) <-- r3(v0, 3), if ((*v0) <= 1);
+      r6(v1) <-- r4(v0, v1), agg () = not() in r3(_, _);
+      r7(v0, 1) <-- r1(v0), agg () = not() in r1((*v0));
+      r8(v33) <-- r3(v0, v1), r0(v32, v33), r0(v32, v34), agg v21 = min(v20) in r4(v20, _);
+   }
+   pub struct Inst { p: Prog, pool: Option<ascent::rayon::ThreadPool> }
+   pub fn make(pool: Option<usize>) -> Box<dyn Driver> {
+      let pool = pool.map(|n| ascent::rayon::ThreadPoolBuilder::new().num_threads(n).build().unwrap());
+      let p = match &pool { Some(pl) => pl.install(|| Default::default()), None => Default::default() };
+      Box::new(Inst { p, pool })
+   }
+   impl Driver for Inst {
+      fn load(&mut self, rel: usize, rows: &[Sexp], append: bool) -> Option<()> {
+         match rel {
+         0 => { let v: Vec<(i64,i64,)> = parse_rows(rows)?; if !append { self.p.r0 = Default::default(); } for x in v { self.p.r0.push(x); } },
+         1 => { let v: Vec<(i64,)> = parse_rows(rows)?; if !append { self.p.r1 = Default::default(); } for x in v { self.p.r1.push(x); } },
+         2 => { let v: Vec<(i64,i64,)> = parse_rows(rows)?; if !append { self.p.r2 = Default::default(); } for x in v { self.p.r2.push(x); } },
+         3 => { let v: Vec<(i64,i64,)> = parse_rows(rows)?; if !append { self.p.r3 = Default::default(); } for x in v { self.p.r3.push(x); } },
+         4 => { let v: Vec<(i64,i64,)> = parse_rows(rows)?; if !append { self.p.r4 = Default::default(); } for x in v { self.p.r4.push(x); } },
+         5 => { let v: Vec<(i64,i64,i64,)> = parse_rows(rows)?; if !append { self.p.r5 = Default::default(); } for x in v { self.p.r5.push(x); } },
+         6 => { let v: Vec<(i64,)> = parse_rows(rows)?; if !append { self.p.r6 = Default::default(); } for x in v { self.p.r6.push(x); } },
+         7 => { let v: Vec<(i64,i64,)> = parse_rows(rows)?; if !append { self.p.r7 = Default::default(); } for x in v { self.p.r7.push(x); } },
+         8 => { let v: Vec<(i64,)> = parse_rows(rows)?; if !append { self.p.r8 = Default::default(); } for x in v { self.p.r8.push(x); } },
+            _ => return None,
+         }
+         Some(())
+      }
+      fn run(&mut self) { match &self.pool { Some(pl) => { let p = &mut self.p; pl.install(|| p.run()) }, None => self.p.run() } }
+      fn run_here(&mut self) { self.p.run() }
+      fn run_timeout(&mut self, k: usize) -> Option<bool> { let _ = k; None }
+      fn dump(&self) -> String { vec![dump_rel(0, self.p.r0.iter().map(|x| x.render()).collect()), dump_rel(1, self.p.r1.iter().map(|x| x.render()).collect()), dump_rel(2, self.p.r2.iter().map(|x| x.render()).collect()), dump_rel(3, self.p.r3.iter().map(|x| x.render()).collect()), dump_rel(4, self.p.r4.iter().map(|x| x.render()).collect()), dump_rel(5, self.p.r5.iter().map(|x| x.render()).collect()), dump_rel(6, self.p.r6.iter().map(|x| x.render()).collect()), dump_rel(7, self.p.r7.iter().map(|x| x.render()).collect()), dump_rel(8, self.p.r8.iter().map(|x| x.render()).collect())].join(" | ") }
+      fn iters(&self) -> String { format!("iters {}", self.p.scc_iters.iter().map(|x| x.to_string()).collect::<Vec<_>>().join(" ")) }
+   }
+}
+
+#[allow(unused, non_snake_case, clippy::all)]
+pub mod f5w_par {
+   use ascent::*;
+   use ascent::aggregators::*;
+   use ascent::lattice::{Dual, set::Set};
+   use crate::common::*;
+   ascent_par! {
+      pub struct Prog;
+      relation r0(i64, i64, i64);
+      relation r1(i64);
+      lattice r2(i64, i64, Dual<i64>);
+      relation r3(i64, i64);
+      r2(v0, v1, Dual((*v2))) <-- r0(v0, v1, v2);
+      r2(v0, v3, Dual(((v2.0) + (*v4)))) <-- r2(v0, v1, v2), r0(v1, v3, v4);
+      r3(v0, (v21 as i64)) <-- r1(v0), agg v21 = count() in r2((*v0), _, _);
+   }
+   pub struct Inst { p: Prog, pool: Option<ascent::rayon::ThreadPool> }
+   pub fn make(pool: Option<usize>) -> Box<dyn Driver> {
+      let pool = pool.map(|n| ascent::rayon::ThreadPoolBuilder::new().num_threads(n).build().unwrap());
+      let p = match &pool { Some(pl) => pl.install(|| Default::default()), None => Default::default() };
+      Box::new(Inst { p, pool })
+   }
+   impl Driver for Inst {
+      fn load(&mut self, rel: usize, rows: &[Sexp], append: bool) -> Option<()> {
+         match rel {
+         0 => { let v: Vec<(i64,i64,i64,)> = parse_rows(rows)?; if !append { self.p.r0 = Default::default(); } for x in v { self.p.r0.push(x); } },
+         1 => { let v: Vec<(i64,)> = parse_rows(rows)?; if !append { self.p.r1 = Default::default(); } for x in v { self.p.r1.push(x); } },
+         2 => { let v: Vec<(i64,i64,Dual<i64>,)> = parse_rows(rows)?; if !append { self.p.r2 = Default::default(); } for x in v { self.p.r2.push(std::sync::RwLock::new(x)); } },
+         3 => { let v: Vec<(i64,i64,)> = parse_rows(rows)?; if !append { self.p.r3 = Default::default(); } for x in v { self.p.r3.push(x); } },
+            _ => return None,
+         }
+         Some(())
+      }
+      fn run(&mut self) { match &self.pool { Some(pl) => { let p = &mut self.p; pl.install(|| p.run()) }, None => self.p.run() } }
+      fn run_here(&mut self) { self.p.run() }
+      fn run_timeout(&mut self, k: usize) -> Option<bool> { let _ = k; None }
+      fn dump(&self) -> String { vec![dump_rel(0, self.p.r0.iter().map(|x| x.render()).collect()), dump_rel(1, self.p.r1.iter().map(|x| x.render()).collect()), dump_rel(2, self.p.r2.iter().map(|x| x.read().unwrap().render()).collect()), dump_rel(3, self.p.r3.iter().map(|x| x.render()).collect())].join(" | ") }
+      fn iters(&self) -> String { format!("iters {}", self.p.scc_iters.iter().map(|x| x.to_string()).collect::<Vec<_>>().join(" ")) }
+   }
+}
+
 fn main() {
-   common::main_loop(&[("w4", w4::make as common::Factory), ("w12", w12::make as common::Factory), ("w20", w20::make as common::Factory)]);
+   common::main_loop(&[("w4", w4::make as common::Factory), ("w12", w12::make as common::Factory), ("w20", w20::make as common::Factory), ("w28", w28::make as common::Factory), ("w36", w36::make as common::Factory), ("w44", w44::make as common::Factory), ("w52", w52::make as common::Factory), ("w60", w60::make as common::Factory), ("w68", w68::make as common::Factory), ("w76", w76::make as common::Factory), ("w84", w84::make as common::Factory), ("w92", w92::make as common::Factory), ("f5w_par", f5w_par::make as common::Factory)]);
 }
